@@ -313,53 +313,102 @@ def build_seam():
     return obj
 
 
+_BUILT = {}
+
+
 def build(api):
-    if api == "c":
-        return vlib.build_driver("cowarray", ["cowarray.c"])
-    return vlib.build_driver("cowarray_cxx", ["cowarray_cxx.cpp", build_seam()], libs=("mptcore", "mpt++"), cxx=True)
+    """driver executable for a binding (built once per process; call before starting threads)"""
+    key = "c" if api == "c" else "cxx"
+    if key not in _BUILT:
+        if key == "c":
+            _BUILT[key] = vlib.build_driver("cowarray", ["cowarray.c"])
+        else:
+            _BUILT[key] = vlib.build_driver("cowarray_cxx", ["cowarray_cxx.cpp", build_seam()], libs=("mptcore", "mpt++"), cxx=True)
+    return _BUILT[key]
 
 
-def run_replay(ck, api, gencfg, module):
-    gen = vlib.tlc(module, gencfg, workers=4)
+def do_replay(api, gencfg, module="Gen_CowArray"):
+    """TLC behaviour export + replay + comparison (no bookkeeping on the Check: thread safe)."""
+    gen = vlib.tlc(module, gencfg, workers=4, tag="%s-%s" % (module, api))
     if gen.error or gen.violation:
-        raise vlib.MachineryError("behaviour export failed (%s): %s %s" % (gencfg, gen.error, gen.violation))
+        raise vlib.MachineryError("behaviour export failed (%s): %s %s" % (gencfg, gen.error, gen.violation or ""))
     behs = vlib.parse_behaviours(gen.out)
     gen.out = ""
     exe = build(api)
     recs, _ = vlib.run_driver(exe, vlib.to_script(behs), timeout=1500)
     mms, stats = compare(behs, recs, api)
+    found = []
     for mm in mms:
         beh = behs[mm["b"]]
-        ck.violation(("" if api == "c" else api + ":") + signature(mm, beh),
-                     {"binding": "A(replay,%s)" % api, "api": api, "behaviour": beh[:mm["i"] + 1], "step": mm["i"],
-                      "why": mm["why"], "record": mm["rec"]})
+        found.append((("" if api == "c" else api + ":") + signature(mm, beh),
+                      {"binding": "A(replay,%s)" % api, "api": api, "behaviour": beh[:mm["i"] + 1], "step": mm["i"],
+                       "why": mm["why"], "record": mm["rec"]}))
     by = vlib.group_records(recs)
     nt = set()
     for b, beh in enumerate(behs):
         if nontrivial(by.get(b, [])):
             nt.add(api + seq_key(beh))
-    ck.cov["evaluations"] += len(behs)
-    ck.cov["transitions"] += gen.generated
-    ck.notes.setdefault("replay", {})[api] = dict(behaviours=len(behs), mismatches=len(mms), skeleton_states=gen.distinct, **stats)
-    return behs, nt
+    note = dict(behaviours=len(behs), mismatches=len(mms), skeleton_states=gen.distinct, transitions=gen.generated, **stats)
+    mid = len(behs) // 2
+    return dict(api=api, found=found, nt=nt, note=note, samples=[vlib.sample_repr(b) for b in behs[mid:mid + 1]])
 
 
-def run(tier):
-    cfg = CFG[tier]
-    ck = vlib.Check(PID, tier)
+def run_replay(ck, api, gencfg, module="Gen_CowArray"):
+    """single threaded variant used by development scripts"""
+    r = do_replay(api, gencfg, module)
+    absorb(ck, r)
+    return r["samples"], r["nt"]
 
-    # 1. the share/detach design implements independent vectors for all histories in the bound
-    res = vlib.tlc("MC_CowArray", cfg["mc"], coverage=False)
-    ck.add_tlc(res, "exhaustive " + cfg["mc"])
 
-    # 2. binding A: every transition of the control skeleton replayed into the real code (C API)
-    behs, nt = run_replay(ck, "c", cfg["gen"], "Gen_CowArray")
+def absorb(ck, r):
+    for sig, detail in r["found"]:
+        ck.violation(sig, detail)
+    ck.cov["evaluations"] += r["note"]["behaviours"]
+    ck.cov["transitions"] += r["note"]["transitions"]
+    ck.notes.setdefault("replay", {})[r["api"]] = r["note"]
 
-    # 3. binding B: recorded executions at production constants validated by TLC
+
+XAPIS = ("xarr", "xtyped", "xunique", "xptr", "xmap")
+
+
+def do_trace(ck, cfg):
     exe = build("c")
     hist = gen_histories(ck, cfg["nhist"], cfg["steps"])
     recs2, _ = vlib.run_driver(exe, vlib.to_script(hist))
     events = vlib.merge_trace(hist, recs2)
+    return hist, recs2, events
+
+
+def run(tier):
+    from concurrent.futures import ThreadPoolExecutor
+    cfg = CFG[tier]
+    ck = vlib.Check(PID, tier)
+    sfx = "_t" if tier == "thorough" else ""
+    build("c")
+    build("xarr")
+    hist, recs2, events = do_trace(ck, cfg)     # uses ck.rng: before the threads start
+    with ThreadPoolExecutor(max_workers=4) as ex:
+        # 1. the share/detach design implements independent vectors for all histories in the bound
+        mcs = [("exhaustive " + cfg["mc"], ex.submit(vlib.tlc, "MC_CowArray", cfg["mc"], 8, tag="MC_CowArray_c"))]
+        if tier == "thorough":
+            for a in XAPIS:
+                mcs.append(("exhaustive MC_CowArray_%s.cfg" % a,
+                            ex.submit(vlib.tlc, "MC_CowArray", "MC_CowArray_%s.cfg" % a, 4, tag="MC_CowArray_" + a)))
+        # 2. binding A: every transition of the control skeleton replayed into the C API and the C++ wrappers
+        reps = [ex.submit(do_replay, "c", cfg["gen"])]
+        reps += [ex.submit(do_replay, a, "Gen_CowArray_%s%s.cfg" % (a, sfx)) for a in XAPIS]
+        results = [f.result() for f in reps]
+        mcres = [(w, f.result()) for w, f in mcs]
+    for what, res in mcres:
+        ck.add_tlc(res, what)
+    nt = set()
+    samples = []
+    for r in results:
+        absorb(ck, r)
+        nt |= r["nt"]
+        samples += r["samples"]
+
+    # 3. binding B: recorded executions at production constants validated by TLC
     ok, matched, ngen, cuts = validate_traces(ck, hist, events)
     ck.cov["transitions"] += ngen
     ck.notes["trace_behaviours_cut_at_known_finding"] = cuts
@@ -375,15 +424,16 @@ def run(tier):
     ck.cov["exhaustive"] = True
     ck.cov["rule"] = ("A: one behaviour per transition of the TLC state graph of CowArray under the view (handle 1: used, capacity, "
                       "immutable, no-copy, type, has-terminator; other handles: type, shares-with-1) with every call and every "
-                      "offset/length 0..MaxArg, replayed into the real code; B: seeded call histories over 4 handles at the "
-                      "production granularity recorded from the real code and validated by TLC.  Non-trivial = some call changed "
-                      "the content read through a handle whose buffer was shared (reference count > 1, logged by the driver) just "
-                      "before the call; distinct by call sequence.")
-    ck.cov["samples"] = [vlib.sample_repr(b) for b in (behs[len(behs) // 2: len(behs) // 2 + 2] + [hist[0][:8]])]
+                      "offset/length 0..MaxArg, for the C API and for each C++ wrapper class (array/slice, typed_array, "
+                      "unique_array, pointer_array, map), replayed into the real code; B: seeded call histories over 4 handles at "
+                      "the production granularity recorded from the real C code and validated by TLC.  Non-trivial = some call "
+                      "changed the content read through a handle whose buffer was shared (reference count > 1, logged by the "
+                      "driver) just before the call; distinct by binding + call sequence.")
+    ck.cov["samples"] = samples[:4] + [hist[0][:8]]
     ck.assumptions = ["TLC/SANY and the CommunityModules Json/IOUtils are correct",
-                      "drv/cowarray.c projects the state without judgement (copies bytes, maps return codes to ok/refused, "
-                      "writes the caller's data through returned pointers as a caller would)",
-                      "buffer_alloc.c compiled into the driver at a scaled granularity is the allocator that ships",
+                      "drv/cowarray.c and drv/cowarray_cxx.cpp project the state without judgement (copy bytes, map return codes "
+                      "to ok/refused, write the caller's data through returned pointers as a caller would)",
+                      "buffer_alloc.c compiled into the drivers at a scaled granularity is the allocator that ships",
                       "no access outside a buffer is observed (ASan) on every executed call, not proved",
                       "the exhaustive model is bounded (see MC cfg); beyond it coverage is by the seeded histories"]
     return ck.finish()
